@@ -262,7 +262,7 @@ def margin_extra(obl):
 
 def decide_all(obls, tier, workers=16, log=None):
     """Decide every obligation. Mutates each obligation dict with 'verdict', 'solver', 'seconds', 'model'."""
-    cap = 180 if tier == "quick" else 900
+    cap = 180 if tier == "quick" else 400
     t0 = time.time()
     # pass 1: batches per (case, theory) with a short per-query limit
     groups = {}
